@@ -1,5 +1,6 @@
 //! One function per trace operation: call exactly one public tz-rs API and report everything observable.
 
+use crate::mem::measure;
 use crate::wire::*;
 use serde_json::{json, Value};
 #[cfg(feature = "cfg-alloc")]
@@ -317,7 +318,7 @@ const UNAVAILABLE: &str = "operation not available in this feature configuration
 #[cfg(feature = "cfg-alloc")]
 fn find_json(a: &Value, z: TimeZoneRef<'_>) -> Value {
     let f = fields(a);
-    match DateTime::find(f.y, f.mo, f.d, f.h, f.mi, f.s, f.ns, z) {
+    match measure(|| DateTime::find(f.y, f.mo, f.d, f.h, f.mi, f.s, f.ns, z)) {
         Ok(l) => {
             let unique = opt_dt(l.unique());
             let earliest = opt_dt(l.earliest());
@@ -601,14 +602,14 @@ fn exec_inner(op: &str, a: &Value, st: &mut State) -> Value {
                     VFS.with(|v| v.borrow_mut().clear());
                     READS.with(|r| r.borrow_mut().clear());
                     let settings = TimeZoneSettings::new(&[], vfs_read);
-                    match settings.parse_posix_tz(text) {
+                    match measure(|| settings.parse_posix_tz(text)) {
                         Ok(z) => ok(json!({ "rule": rule_json(z.as_ref().extra_rule()), "ntypes": z.as_ref().local_time_types().len(), "ntr": z.as_ref().transitions().len() })),
                         Err(e) => crate_err(e),
                     }
                 }
                 v @ ("v2" | "v3") => {
                     let file = tzif_with_footer(if v == "v2" { b'2' } else { b'3' }, &s);
-                    match TimeZone::from_tz_data(&file) {
+                    match measure(|| TimeZone::from_tz_data(&file)) {
                         Ok(z) => ok(json!({ "rule": rule_json(z.as_ref().extra_rule()), "ntypes": z.as_ref().local_time_types().len(), "ntr": z.as_ref().transitions().len() })),
                         Err(e) => err(e),
                     }
@@ -620,7 +621,7 @@ fn exec_inner(op: &str, a: &Value, st: &mut State) -> Value {
         #[cfg(feature = "cfg-alloc")]
         "tzif" => {
             let b = to_bytes(getv(a, "bytes"));
-            match TimeZone::from_tz_data(&b) {
+            match measure(|| TimeZone::from_tz_data(&b)) {
                 Ok(z) => {
                     let j = zone_json(&z.as_ref());
                     st.set_owned(z);
